@@ -600,6 +600,9 @@ class Gen(object):
                 op['out_like'] = ko
         else:
             op['route'] = 'np'
+            if r.random() < 0.2:
+                ko, _ = self.pick(self.is_real)
+                op['out'] = ko
         return op
 
     def g_bitwise(self):
